@@ -387,6 +387,11 @@ def t_c04_class_members() -> Iterator[Dict[str, Any]]:
         else:
             yield project([mod("p", pkg=True), mod("a", 1, ops=shadow), mod("b", 1, ops=flat(frm("a", "OuterB", lvl=1), cls("Inner"), use))],
                           "C04", members="module-level-namesake", where=where)
+    # a name read in the body of a NESTED class: Python looks in that class, then in the module - never in the enclosing class
+    yield project([mod("p", pkg=True), mod("a", 1, ops=flat(cls("name", body=[fn("modlevel")]), fn("tool"),
+                                                            cls("Outer", body=flat(cls("name", body=[fn("inouter")]), fn("tool"),
+                                                                                   cls("Inner", body=flat(alias("al", "name"), alias("t", "tool"), cls("K", "name")))))))],
+                  "C04", members="nested-class-scope")
     chain = flat(cls("Base", body=flat(cls("In"), var("v"))), cls("Mid", "Base"), cls("Leaf", "Mid"))
     yield project([mod("p", pkg=True), mod("a", 1, ops=chain), mod("b", 1, ops=flat(frm("a", "Leaf", lvl=1), cls("X", "Leaf.In"), alias("vv", "Leaf.v")))],
                   "C04", members="chain")
